@@ -61,6 +61,8 @@ func runC06(p *eng.Prog, r *eng.Report, tier string) {
 	c18RegisteredBeforeQueued(c, "C06.24")
 	c15OnlyOwnRouteWithdrawn(c, "C06.25")
 	c15WakeUpOnlyOpenReaders(c, "C06.26")
+	c06LateSelfPresenceToHandler(c, "C06.27")
+	c06WaiterWithdrawnOnEveryExit(c, "C06.28")
 	attrGetNotUsed(c, "C06.23")
 	// C06.7 a hand-off record queued for the handler is taken back when the call fails
 	handoffWithdrawn(c, "C06.7", "muc", "(*Channel).JoinPresence", "muc.Channel.join")
@@ -301,4 +303,108 @@ func c06Waiters(c *cx) {
 			}
 		}
 	}
+}
+
+// c06LateSelfPresenceToHandler (C06.27): a reply nobody waits for goes to the
+// handler - for the MUC join hand-off: when the serve loop has taken a join
+// record whose caller has given up (the done arm), the presence is not
+// swallowed: every return reachable from that arm passes the dispatch to the
+// user presence handler (the test of HandleUserPresence), or the loop goes
+// back to look for another waiter.
+func c06LateSelfPresenceToHandler(c *cx, id string) {
+	f := c.fn(id, "muc", "(*Client).HandlePresence")
+	if f == nil {
+		return
+	}
+	g := f.Graph()
+	isDispatch := func(q eng.Point, nd ast.Node) bool {
+		found := false
+		ast.Inspect(nd, func(x ast.Node) bool {
+			if sel, ok := x.(*ast.SelectorExpr); ok && sel.Sel.Name == "HandleUserPresence" {
+				found = true
+			}
+			return !found
+		})
+		return found
+	}
+	n := 0
+	// a hand-off to ANOTHER waiting join completes the presence's journey as well
+	handed := eng.Cut{}
+	for _, ce := range g.EdgesMatching("selectarm(send *)") {
+		handed[ce.E] = true
+	}
+	for _, ce := range g.EdgesMatching("selectarm(recv *.done)") {
+		n++
+		from := g.EdgeTarget(ce.E)
+		bad := ""
+		for _, rs := range g.Returns {
+			rp, _ := g.Where(rs)
+			if g.RetKindOf(rs) == eng.RetError {
+				continue
+			}
+			if g.Reachable(from, rp, handed, isDispatch) {
+				bad = "the return at " + c.p.Pos(rs.Pos()) + " is reached from the arm of a join that has given up without offering the presence to HandleUserPresence"
+			}
+		}
+		c.r.Check(id, f, "presence for a join that has given up", "O: from the done arm of the join hand-off every non-error return passes the dispatch to the user presence handler", f.Pos(), bad == "", bad)
+	}
+	c.r.Floor(id, "done arms of the join hand-off", n, 1)
+}
+
+// c06WaiterWithdrawnOnEveryExit (C06.28 / C08.19): sendResp registers its waiter
+// in Session.sentStanzas and then sends: whatever happens afterwards - also a
+// failed send - the entry is removed when the call returns. Every return after
+// the registration is preceded by the defer statement that deletes the entry
+// (or by the delete itself): an entry left behind by a failed send makes the
+// serve loop offer a later stanza with that id to nobody, for ever.
+func c06WaiterWithdrawnOnEveryExit(c *cx, id string) {
+	f := c.fn(id, "", "(*Session).sendResp")
+	if f == nil {
+		return
+	}
+	g := f.Graph()
+	var reg *eng.MapUpdate
+	mus := f.MapUpdates()
+	for i := range mus {
+		if k, _ := f.FieldClass(mus[i].Map); k == "xmpp.Session.sentStanzas" && !mus[i].Delete {
+			reg = &mus[i]
+		}
+	}
+	if reg == nil {
+		c.r.Unresolved(id, "registration in Session.sentStanzas")
+		return
+	}
+	rp0, _ := g.Where(reg.Node)
+	isWithdraw := func(q eng.Point, nd ast.Node) bool {
+		if ds, ok := nd.(*ast.DeferStmt); ok {
+			if l, ok := ast.Unparen(ds.Call.Fun).(*ast.FuncLit); ok {
+				if lf := c.p.FnOfLit(l); lf != nil {
+					for _, mu := range lf.MapUpdates() {
+						if k, _ := lf.FieldClass(mu.Map); k == "xmpp.Session.sentStanzas" && mu.Delete {
+							return true
+						}
+					}
+				}
+			}
+			return false
+		}
+		for _, mu := range mus {
+			if mu.Delete && mu.Node == nd {
+				if k, _ := f.FieldClass(mu.Map); k == "xmpp.Session.sentStanzas" {
+					return true
+				}
+			}
+		}
+		return false
+	}
+	n := 0
+	for _, rs := range g.Returns {
+		rp, _ := g.Where(rs)
+		if !g.Reachable(g.After(rp0), rp, nil, nil) {
+			continue
+		}
+		n++
+		c.r.Check(id, f, "waiter entry withdrawn", "E-res: every return after the registration in Session.sentStanzas has passed the (deferred) removal of the entry", rs.Pos(), g.MustPassBefore(g.After(rp0), rp, isWithdraw, nil), "this return leaves the entry behind (a failed send): the serve loop blocks offering a later stanza with this id to a waiter that does not exist")
+	}
+	c.r.Floor(id, "returns of sendResp after the registration", n, 2)
 }
